@@ -7,7 +7,15 @@ from vlib.proto import hexs, unhex
 LEAN_TARGETS = ["LyModel.Props.C10"]
 AUDIT = "Audit/C10.lean"
 GENERATED = ["YangStr"]
-ASSUMPTIONS = ["see DESIGN.md §5 C10"]
+ASSUMPTIONS = [
+    "DESIGN.md §5 C10: (P) string side proved on the model (ypr_encode/ypr_text/yprp_stmt vs read_qstring/get_argument/get_keyword/parse_ext_substmt); "
+    "whole-module faithfulness (every statement printer, YIN printer/parser, compiled and tree printers) is (L): laws evaluated on the implementation",
+    "strings are C strings without NUL; pctx->level < 65535 (LEVEL++ wraps a uint16_t); parser depth <= LY_MAX_BLOCK_DEPTH",
+    "single-line ypr_text statements carry YANG keywords (where the lexer's column counter is exact); extension keywords over-count it",
+    "api_schema runs with detect_leaks=0: a failed YIN parse leaks parsed statements (reported to the owner of F21)",
+]
+TRUSTED = ["harness/wb_yang.c and harness/api_schema.c", "tools/extractors/yangstr.py (escape switches, is_yangutf8char ranges, keyword trie, constants)",
+           "classification predicates in tools/checks/c10.py and tools/checks/yangstrcomp.py"]
 
 API = "api_schema"
 # a failed YIN parse leaks parsed statements (seen with F20 documents; a C17 matter, noted in findings.d): leak reports at exit
@@ -150,6 +158,40 @@ def recompute(case):
 def run(cx):
     yangstrcomp.run_strings(cx)
     run_modules(cx)
+
+
+def replay(cx, payload):
+    """re-evaluate the failing input of a replay file: a module through api_schema, a string-level case through wb_yang and the model"""
+    case = payload.get("failure", {}).get("case", {})
+    if "module_hex" in case and case["module_hex"] not in ("-",) and not case["module_hex"].startswith("("):
+        m = {"name": case.get("module", "replay").encode(), "cls": "replay", "text": unhex(case["module_hex"]),
+             "deps": [(unhex(n), unhex(t)) for n, t in case.get("deps_hex", [])], "risk_used": False}
+        dirs = hexs(searchdirs())
+        deps = " ".join(hexs(n) + " " + hexs(t) for n, t in m["deps"])
+        lines = [("0 schema roundtrip %s %s %s" % (dirs, hexs(m["text"]), deps)).rstrip(),
+                 ("1 schema determinism %s %s %s" % (dirs, hexs(m["text"]), deps)).rstrip()]
+        rr = cx.run_impl(API, lines, env=API_ENV, component=API)
+        r = rr.get("0", ["err", "NoReply"])
+        lex = []
+        if r[0] == "ok":
+            lex = ["%d %s stmts %s" % (i, yangstrcomp.COMP, r[f]) for i, f in enumerate((8, 11)) if r[f] != "-"]
+        li, _ = cx.differential(yangstrcomp.COMP, lex, yangstrcomp.HARNESS)
+        judge(cx, m, r, rr.get("1", ["err", "NoReply"]), li.get("0"), li.get("1") if len(lex) > 1 else None)
+    elif "request" in case or "text_hex" in case:
+        reqs = []
+        if "request" in case:
+            reqs.append(case["request"])
+        if case.get("law") == "text":
+            reqs.append("yprtext %d %d %d %s %s" % (case["fmt"], case["level"], case["flags"], case["name_hex"], case["text_hex"]))
+            reqs.append("stmts " + hexs(unhex(case["printed_hex"]) + b";\n"))
+        elif case.get("law") == "encode":
+            reqs.append("encode " + case["text_hex"])
+            reqs.append("getarg 0 4 " + hexs(b"\"" + unhex(case["printed_hex"]) + b"\";"))
+        cx.differential(yangstrcomp.COMP, ["%d %s %s" % (i, yangstrcomp.COMP, q) for i, q in enumerate(reqs)], yangstrcomp.HARNESS)
+        cx.notes.append("replayed requests: %r" % (reqs,))
+    elif payload.get("kind") == "correspondence-broken":
+        lines = [x["line"] for x in payload.get("first", [])]
+        cx.differential(yangstrcomp.COMP, lines, yangstrcomp.HARNESS)
 
 
 def run_modules(cx):
